@@ -53,6 +53,14 @@ def generate(ctx):
                     yield "ctor", dict(k=k, run=run, motif_len=ml)
                 i += 1
     ctx.exhausted[EXHAUSTIVE[0]] = True
+    for _ in range(ctx.pick(25, 250)):   # G2: one filter object, tightened between two runs of the pipeline
+        k = rng.choice([2, 3, 3, 4])
+        yield "filter_sequence", dict(k=k, t=rng.choice([1, 2]), run0=rng.choice([None, k - 1 if k > 2 else None]), run1=rng.choice([1, 2]) if k > 2 else 1,
+                                      motif=gens.random_dna(rng, rng.randint(1, k)), gc=rng.choice([None, [0.25, 0.75], [0.0, 1.0]]))
+    if ctx.shard < ctx.pick(6, 32):      # long payloads: strands beyond 1000 nt, judged by the whole-sequence check as well
+        k = rng.choice([3, 4, 5])
+        spec = dict(kind="local", cfg=dict(k=k, run=rng.choice([None, k - 1]), gc=rng.choice([[0.25, 0.75], [0.4, 0.6], [0.2, 0.8]]), motifs=None))
+        yield "pipeline", dict(k=k, t=rng.choice([1, 2]), filter=spec, n_msgs=1, long=True)
     preds = ["forbidden", "forbidden", "doc-gc", "doc-gc", "parity", "positional", "first-ne-last", "prefix"]
     for _ in range(ctx.pick(400, 4000)):
         k = rng.choice(ctx.pick([1, 2, 2, 3, 3, 4, 5], [1, 2, 2, 3, 3, 4, 4, 5, 5, 6]))
@@ -75,14 +83,6 @@ def generate(ctx):
             spec = dict(kind="asym", cfg=dict(k=k, run=rng.choice([None, min(2, k), min(3, k)]), gc=rng.choice([None, [0.25, 0.75], [0.0, 1.0]]), motifs=None),
                         banned=[rng.choice(["GGG", "GG", "AC", "TTG", "CAT", "TC"])[:k]])
         yield "pipeline", dict(k=k, t=rng.choice([1, 1, 2, 2, 3, 4]), filter=spec, n_msgs=ctx.pick(5, 8))
-    for _ in range(ctx.pick(25, 250)):   # G2: one filter object, tightened between two runs of the pipeline
-        k = rng.choice([2, 3, 3, 4])
-        yield "filter_sequence", dict(k=k, t=rng.choice([1, 2]), run0=rng.choice([None, k - 1 if k > 2 else None]), run1=rng.choice([1, 2]) if k > 2 else 1,
-                                      motif=gens.random_dna(rng, rng.randint(1, k)), gc=rng.choice([None, [0.25, 0.75], [0.0, 1.0]]))
-    if ctx.shard < ctx.pick(6, 32):      # long payloads: strands beyond 1000 nt, judged by the whole-sequence check as well
-        k = rng.choice([3, 4, 5])
-        spec = dict(kind="local", cfg=dict(k=k, run=rng.choice([None, k - 1]), gc=rng.choice([[0.25, 0.75], [0.4, 0.6], [0.2, 0.8]]), motifs=None))
-        yield "pipeline", dict(k=k, t=rng.choice([1, 2]), filter=spec, n_msgs=1, long=True)
 
 
 def check_ctor(ctx, case):
